@@ -20,6 +20,11 @@ pub(super) fn detect_cycles(ast: &Ast, diagnostics: &mut Diagnostics) {
             // Typealias cycles are caught during the type-patching phase.
             Node::Struct(struct_def) => struct_def.borrow(),
             Node::Enum(enum_def) => enum_def.borrow(),
+            // Interfaces can't be infinitely sized, but they can (illegally) inherit from themselves.
+            Node::Interface(interface_def) => {
+                cycle_detector.check_interface_for_inheritance_cycles(interface_def.borrow());
+                continue;
+            }
             _ => continue,
         };
 
@@ -121,6 +126,60 @@ impl<'a> CycleDetector<'a> {
         self.dependency_stack.push((candidate_type_string, origin));
         candidate.check_for_cycles(self);
         self.dependency_stack.pop();
+    }
+
+    /// Checks whether the provided interface inherits from itself, either directly or through its base interfaces.
+    fn check_interface_for_inheritance_cycles(&mut self, interface: &Interface) {
+        let interface_id = interface.module_scoped_identifier();
+
+        // Search through the interface's bases (depth-first) for a path that leads back to the interface itself.
+        // Each base is only expanded once, so this search terminates even when the bases contain cycles.
+        let mut visited = HashSet::new();
+        let mut path = Vec::new();
+        if !Self::find_inheritance_path(interface, &interface_id, &mut visited, &mut path) {
+            return;
+        }
+
+        // For cycles consisting of N interfaces, we detect N cycles, one for each interface. We only report the first.
+        let cycle_set: BTreeSet<String> = path.iter().cloned().collect();
+        if !self.reported_cycles.insert(cycle_set) {
+            return;
+        }
+
+        // Report the error, with a string showing the cycle that was detected (of the form "A -> B -> C -> A").
+        let cycle = interface_id.clone() + " -> " + &path.join(" -> ");
+        Diagnostic::new(Error::InfiniteSizeCycle {
+            type_id: interface_id,
+            cycle,
+        })
+        .set_span(interface.span())
+        .push_into(self.diagnostics);
+    }
+
+    /// Searches the base interfaces of `current` for `target_id`. If it's found, this returns true and `path`
+    /// holds the identifiers of the interfaces leading from `current` to the target (inclusive).
+    fn find_inheritance_path(
+        current: &Interface,
+        target_id: &str,
+        visited: &mut HashSet<String>,
+        path: &mut Vec<String>,
+    ) -> bool {
+        for base in current.base_interfaces() {
+            let base_id = base.module_scoped_identifier();
+            if base_id == target_id {
+                path.push(base_id);
+                return true;
+            }
+            // Only descend into bases we haven't already searched through.
+            if visited.insert(base_id.clone()) {
+                path.push(base_id);
+                if Self::find_inheritance_path(base, target_id, visited, path) {
+                    return true;
+                }
+                path.pop();
+            }
+        }
+        false
     }
 
     fn report_cycle_error(&mut self) {
